@@ -300,6 +300,14 @@ def run(ck):
         ck.ob("R3", "%s:raises-ACCESS_VIOL" % fname, ok, "miasm/jitter/vm_mngr.c", "%s never sets EXCEPT_ACCESS_VIOL" % fname)
 
     _attr_rules(ck, cg)
+    # R5: every byte an emulated access touches is resolved through the faulting page lookup and tested (rules of C24-R1)
+    import re as _re
+    from rules import c24 as _c24
+    tu24 = cast.load(ck.repo, "miasm/jitter/vm_mngr.c")
+    ck.rule("R5", "each page an emulated access touches is looked up (faulting when unmapped) and permission-tested before its bytes are used", floor=8)
+    reads = sorted(n for n in tu24.funcs if _re.match(r"vm_MEM_LOOKUP_\d+$", n))
+    writes = sorted(n for n in tu24.funcs if _re.match(r"vm_MEM_WRITE_\d+$", n))
+    _c24.page_pointer_rules(ck, tu24, "R5", _c24._closure(tu24, reads), _c24._closure(tu24, writes), tu24.macro_int("PAGE_READ"), tu24.macro_int("PAGE_WRITE"))
 
 
 def _is_mem_test(e, var):
